@@ -445,28 +445,41 @@ def E_key(pc):
 
 # ---- R5 / R6: percent and left fold ------------------------------------------------------------------------------
 def r5_percent(facts, rep):
-    rep.rule("C01-R5", "a percentage is the parsed literal divided by the constant 100 (or multiplied by 1/100): in the "
-                       "PERCENTAGE arm of eval::eval the result is Div(parse::<Rational>(text), Rational::new(100, 1))")
-    body = anchor(rep, "C01-R5", facts, "eval::eval")
-    if body is None:
+    rep.rule("C01-R5", "a percentage is the parsed literal divided by 100: summary of eval::eval on a PERCENTAGE node whose first "
+                       "child is a NUMBER (syntree accessors on a scripted tree, helpers followed): the only Ok result is "
+                       "parse(text of the NUMBER child) / 100 with the empty unit (compared semantically, so `* 1/100` is the same)")
+    from . import evalnode
+    from ..absint import evalterm
+    from fractions import Fraction
+    if anchor(rep, "C01-R5", facts, "eval::eval") is None:
         return
-    sites = []
-    for blk, t, sp, name in body.calls(lambda n: n in ("<rational::Rational as std::ops::Div>::div", "<rational::Rational as std::ops::Mul>::mul")):
-        a, b = t["args"][0], t["args"][1]
-        la = flow.slice_back(body, a, facts=facts)
-        lb = flow.slice_back(body, b, facts=facts)
-        parse_a = any(l[0] == "call" and "str::<impl str>::parse" in l[1] for l in la)
-        news = [l for l in lb if l[0] == "call" and l[1] == "rational::Rational::new"]
-        if not (parse_a and news):
+    tree = {0: {"kind": "PERCENTAGE", "children": [1, 2]}, 1: {"kind": "NUMBER", "children": []}, 2: {"kind": "PERCENTAGE", "token": True}}
+    try:
+        dom, it, outs = evalnode.run_eval(facts, tree)
+    except core.Undecided as e:
+        rep.ob("C01-R5", "percent", False, "undecided: %s" % e)
+        return
+    oks = []
+    bad = []
+    for o in outs:
+        if o.kind != "ret":
+            bad.append("%s %s" % (o.kind, o.value))
             continue
-        nt = body.blocks[news[0][2]]["term"]["t"]
-        consts = [F.const_val(x) if x["k"] == "const" else None for x in nt["args"]]
-        sites.append((name, consts, sp))
-    rep.floor("C01-R5", "percentage computations", len(sites), 1)
-    for name, consts, sp in sites:
-        good = (name.endswith("Div>::div") and consts == [100, 1]) or (name.endswith("Mul>::mul") and consts == [1, 100])
-        rep.ob("C01-R5", "percent", good, "percentage = literal %s Rational::new(%s, %s)" % ("/" if "Div" in name else "*", consts[0], consts[1]),
-               body.site(sp), sample={"op": name, "constant": consts})
+        u = E.unpack(o.value)
+        if u[0] == "ok":
+            oks.append(u[1])
+    want = T("/", T("parse", T("text", Sym("span1"))), K(100))
+    grid = [{"parse": (lambda x, v=v: v), "text": (lambda sp: Fraction(0)), "span1": Fraction(0), "span0": Fraction(0)}
+            for v in (Fraction(0), Fraction(1), Fraction(-7, 3), Fraction(250), Fraction(1, 8))]
+    for v in oks:
+        try:
+            eq, w = evalterm.sem_eq(v, want, grid)
+        except evalterm.Unrecognised as e:
+            eq, w = False, str(e)
+        if not eq:
+            bad.append("a percentage evaluates to %r; specified parse(text of the NUMBER child) / 100" % (v,))
+    rep.ob("C01-R5", "percent", not bad and len(oks) >= 1, "; ".join(bad[:3]) if bad else "percentage = parse(literal) / 100 on the %d Ok path(s)" % len(oks),
+           facts.fn("eval::eval").site(), sample={"value": repr(oks[0]) if oks else None})
 
 
 def r6_fold(facts, rep):
